@@ -15,8 +15,8 @@ import (
 )
 
 var rec = ev.New("C17",
-	"histories on one websocket connection with a recording SubscriptionLogger and WithMaxSubscriptions(1..3): subscribe / unsubscribe / mutate with ids from a pool of 3 (collisions between message kinds included), echo, malformed message payloads, unknown message types, data writes with invalidation, resolvers failing on drawn runs, context cancellation and socket close at any step; oracles: duplicate-id rule, subscription limit, every Subscribe gets exactly one Unsubscribe once the connection is closed, no resolver runs and nothing is written after the end, every reactive resource a run registered is released exactly once; non-trivial = id collision between kinds or duplicate subscribe, or a resolver failure, or close/cancel during the history; distinct = hash of the case",
-	"a failing subscription ends asynchronously: until its end is observed either answer to a re-subscribe is accepted", "mutations log an Unsubscribe without a Subscribe; unmatched Unsubscribes are ignored")
+	"histories on one websocket connection with a recording SubscriptionLogger and WithMaxSubscriptions(1..3): subscribe / unsubscribe / mutate with ids from a pool of 3 (collisions between message kinds included), echo, malformed message payloads, unknown message types, data writes with invalidation, resolvers failing on drawn runs, context cancellation and socket close at any step; oracles: duplicate-id rule, subscription limit, every Subscribe gets exactly one Unsubscribe (checked after every step and once the connection is closed), a subscription never ends without cause (also with the closer goroutines of earlier runs delayed through hook H6 and slow resolvers / a slow error logger keeping runs in flight while the next frame arrives), no resolver runs and nothing is written after the end, every reactive resource a run registered is released exactly once; non-trivial = id collision between kinds or duplicate subscribe, or a resolver failure, or close/cancel during the history; distinct = hash of the case",
+	"a failing subscription ends asynchronously: until its end is observed either answer to a re-subscribe is accepted", "a mutation logs an Unsubscribe of its own without a Subscribe (tracked by the harness per mutate frame sent); any other unmatched Unsubscribe is a violation", "without an injected failure, cancel or close a subscription may only end by unsubscribe")
 
 func TestMain(m *testing.M) { log.SetOutput(io.Discard); code := m.Run(); rec.Flush(); os.Exit(code) }
 
